@@ -115,6 +115,12 @@ class Driver:
             return ("nat", len(db))
         if k == "iter":
             return ("points", [_clean_point(p) for p in db])
+        if k == "file":
+            # an independent reader: the bytes of the file, decoded without going through tinyflux
+            import iotie
+            kw = self.csv_kwargs
+            pts = iotie.decode_bytes(iotie.read_file(self.path), kw.get("encoding"), iotie.csv_only(kw))
+            return ("points", pts) if pts is not None else ("raise", "undecodable-file")
         if k == "get_measurements":
             return ("strs", list(db.get_measurements()))
         if k == "get_tag_keys":
@@ -133,7 +139,7 @@ class Driver:
             return ("unit",)
         if k == "reopen":
             db.close()
-            self.db = tf.TinyFlux(self.path, auto_index=o[1], **self.csv_kwargs)
+            self.db = tf.TinyFlux(self.path, auto_index=o[1], **{k: v for k, v in self.csv_kwargs.items() if k != "access_mode"})
             self.handles = {}
             return ("unit",)
         if k == "index_valid":
